@@ -81,3 +81,10 @@ pub proof fn axiom_slice_len(v: &[u8])
 pub proof fn axiom_two_vecs(a: &Vec<u8>, b: &Vec<u8>)
     ensures a.len() + b.len() <= isize::MAX
 { }
+
+// R26: `D[a..b].copy_from_slice(S)` (std: panics unless a <= b <= D.len() and S.len() == b - a)
+#[verifier::external_body]
+pub fn slice_copy_into(dst: &mut [u8], a: usize, b: usize, src: &[u8])
+    requires a <= b <= old(dst).len(), src.len() == b - a
+    ensures final(dst)@ == old(dst)@.subrange(0, a as int) + src@ + old(dst)@.subrange(b as int, old(dst)@.len() as int)
+{ dst[a..b].copy_from_slice(src) }
